@@ -8,6 +8,9 @@ package reflection
 //@ field Analyzer.cache guarded_by mu contents map[uintptr]*ConstructorInfo
 //@ field Analyzer.invokerCache guarded_by invokerMu contents map[uintptr]*ConstructorInvoker
 //
+//@ lockinv Analyzer.invokerMu invokers_complete: forall k uintptr :: (k in self.invokerCache) ==> self.invokerCache[k] != nil && self.invokerCache[k].paramBuilder != nil
+//@ lockinv Analyzer.mu cache_entries_nonnil: forall k uintptr :: (k in self.cache) ==> self.cache[k] != nil
+//
 // The resolver handed to the invoker is the scope: resolving a dependency may run user constructors.
 //@ func DependencyResolver.Get
 //@   nocheck
@@ -28,13 +31,16 @@ package reflection
 //@   nopanic
 //@   modifies ConstructorInfo.*, map[uintptr]*ConstructorInfo, alloc, Dependency.*
 //@   ensures[C15] error_or_info: (result1 == nil) <==> (result0 != nil)
+//@   ensures[C04] describes_the_signature_of_the_given_constructor: result1 == nil ==> result0.Type == ext("reflect.TypeOf", "reflect.Type", constructor)
+//@   ensures[C04] nil_constructor_rejected: constructor == nil ==> result1 != nil
+//@   ensures[C15] info_has_a_type: result1 == nil ==> result0.Type != nil
 //
 //@ func Analyzer.GetInvoker
 //@   mode conc
 //@   safety off
 //@   nopanic
 //@   modifies ConstructorInvoker.*, ParamObjectBuilder.*, map[uintptr]*ConstructorInvoker, alloc
-//@   ensures[C15] nonnil: result != nil
+//@   ensures[C15] nonnil: result != nil && result.paramBuilder != nil
 //
 //@ func ResultObjectProcessor.ProcessResultObject
 //@   safety off
@@ -177,3 +183,17 @@ package reflection
 //@   ensures[C15] argument_failure_is_wrapped: info.IsFunc && callret("ConstructorInvoker.buildArguments", 0, 1) != nil ==> isnil(results) && wraps(err, callret("ConstructorInvoker.buildArguments", 0, 1))
 //@   ensures[C15] panic_is_passed_through: ncalls("ConstructorInvoker.invokeWithRecovery") == 1 && callret("ConstructorInvoker.invokeWithRecovery", 0, 1) != nil ==> isnil(results) && err == callret("ConstructorInvoker.invokeWithRecovery", 0, 1)
 //@   ensures[C15] error_means_no_results: err != nil ==> isnil(results)
+//
+// ---------------------------------------------------------------------------------------------
+// Analysis (C04: what is analysed is the registered constructor value; C05/C07/C08: the declared dependencies are
+// exactly the parameters that invocation will resolve).
+//@ func Analyzer.buildDependencies
+//@   safety[C15]
+//@   requires args: info != nil
+//@   ensures[C05,C07,C08,C04] one_dependency_per_parameter: len(result) == len(info.Parameters) && (forall i int :: 0 <= i && i < len(result) ==> result[i] != nil
+//@        && result[i].Key == info.Parameters[i].Key && result[i].Group == info.Parameters[i].Group && result[i].Optional == info.Parameters[i].Optional
+//@        && result[i].Type == ite(info.Parameters[i].IsSlice && info.Parameters[i].Group != "" && info.Parameters[i].ElemType != nil, info.Parameters[i].ElemType, info.Parameters[i].Type))
+//@   loop 1
+//@     invariant built: len(deps) == idx && !isnil(deps) && (forall i int :: 0 <= i && i < idx ==> deps[i] != nil && fresh(deps[i]) && allocated(deps[i])
+//@        && deps[i].Key == info.Parameters[i].Key && deps[i].Group == info.Parameters[i].Group && deps[i].Optional == info.Parameters[i].Optional
+//@        && deps[i].Type == ite(info.Parameters[i].IsSlice && info.Parameters[i].Group != "" && info.Parameters[i].ElemType != nil, info.Parameters[i].ElemType, info.Parameters[i].Type))
